@@ -281,7 +281,7 @@ func main() {
 			"the overlay shims (verifrt) preserve the semantics of the primitives they wrap",
 		}
 		if r.Thorough() {
-			r.Deadline = 60 * time.Minute
+			r.Deadline = 90 * time.Minute
 		}
 		if !mc.Instrumented {
 			panic("C05 must be built with the overlay (-tags verifrt)")
@@ -337,6 +337,15 @@ func main() {
 						}
 						sc := r.Conc(fmt.Sprintf("k%d/%s/%s", k, strings.Join(names, ","), ex), -1, scenario(k, roles, ex))
 						sc.SplitDepth = 3
+						// the sleep-set reduction judges independence by the cell of the hooked step, with plain
+						// accesses attributed to the preceding step; a conflict that exists only through a plain
+						// variable written after one atomic step and read after another on a different cell is
+						// invisible to it. Two-thread scenarios are therefore also explored without any reduction
+						// under a preemption bound (every schedule with at most 3 preemptions).
+						if T == 2 && ex == "default" && (k == 0 || k == 3) {
+							nr := r.Conc(fmt.Sprintf("noreduction-pb3/k%d/%s/%s", k, strings.Join(names, ","), ex), 3, scenario(k, roles, ex))
+							nr.SplitDepth = 3
+						}
 					}
 				}
 			}
